@@ -18,6 +18,7 @@
     31 Queue::push tail.cas(ok)     32 Queue::pop head.index.store (a value was popped)     33 Queue::push_index tail.load (pop found nothing)
    src/park.rs (the token word of a coroutine's Blocker):
     40 check_park state.load   41 check_park state.store   42 check_park state.swap   43 unpark_impl state.swap
+    44 Park::ignore_cancel check_cancel.store (Blocker::new of a coroutine receiver: to_wake.store follows)
 
    The runtime itself uses may_queue::mpsc queues, Parks and ThreadParks (scheduler, join): events on
    objects other than the channel's, or by actors that are not inside a channel call at a matching
@@ -40,18 +41,20 @@ Record aux := { started : bool;
                                          5 check_park#1 load saw false; 3 check_park#1 load saw true (store pending);
                                          2 coroutine suspended; 6 / 7 check_park#2 load saw true / false *)
                 opk : nat -> Z;       (* blocker -> its park object *)
-                qt : Z; qh : Z }.     (* the channel queue's tail word / head.index word *)
+                qt : Z; qh : Z;       (* the channel queue's tail word / head.index word *)
+                nb : nat }.           (* 1: the receiver created its new blocker, to_wake.store pending; 2: the store was seen to have happened (see codes 44 / 45) *)
 
-Definition aux0 := {| started := false; ract := O; hof := fun _ => O; ph := O; opk := fun _ => 0; qt := 0; qh := 0 |}.
+Definition aux0 := {| started := false; ract := O; hof := fun _ => O; ph := O; opk := fun _ => 0; qt := 0; qh := 0; nb := O |}.
 Definition ast := (st * aux)%type.
-Definition m_init : ast := (init, aux0).
+Definition a_init : ast := (init, aux0).
 
-Definition set_ract (x : aux) a := {| started := started x; ract := a; hof := hof x; ph := ph x; opk := opk x; qt := qt x; qh := qh x |}.
-Definition set_hof (x : aux) a h := {| started := started x; ract := ract x; hof := upd (hof x) a h; ph := ph x; opk := opk x; qt := qt x; qh := qh x |}.
-Definition set_ph (x : aux) p := {| started := started x; ract := ract x; hof := hof x; ph := p; opk := opk x; qt := qt x; qh := qh x |}.
-Definition set_opk (x : aux) m := {| started := started x; ract := ract x; hof := hof x; ph := ph x; opk := m; qt := qt x; qh := qh x |}.
-Definition set_qt (x : aux) o := {| started := started x; ract := ract x; hof := hof x; ph := ph x; opk := opk x; qt := o; qh := qh x |}.
-Definition set_qh (x : aux) o := {| started := started x; ract := ract x; hof := hof x; ph := ph x; opk := opk x; qt := qt x; qh := o |}.
+Definition set_ract (x : aux) a := {| started := started x; ract := a; hof := hof x; ph := ph x; opk := opk x; qt := qt x; qh := qh x; nb := nb x |}.
+Definition set_hof (x : aux) a h := {| started := started x; ract := ract x; hof := upd (hof x) a h; ph := ph x; opk := opk x; qt := qt x; qh := qh x; nb := nb x |}.
+Definition set_ph (x : aux) p := {| started := started x; ract := ract x; hof := hof x; ph := p; opk := opk x; qt := qt x; qh := qh x; nb := nb x |}.
+Definition set_opk (x : aux) m := {| started := started x; ract := ract x; hof := hof x; ph := ph x; opk := m; qt := qt x; qh := qh x; nb := nb x |}.
+Definition set_qt (x : aux) o := {| started := started x; ract := ract x; hof := hof x; ph := ph x; opk := opk x; qt := o; qh := qh x; nb := nb x |}.
+Definition set_nb (x : aux) n := {| started := started x; ract := ract x; hof := hof x; ph := ph x; opk := opk x; qt := qt x; qh := qh x; nb := n |}.
+Definition set_qh (x : aux) o := {| started := started x; ract := ract x; hof := hof x; ph := ph x; opk := opk x; qt := qt x; qh := o; nb := nb x |}.
 
 Definition rpc_eqb (x y : rpc) : bool :=
   match x, y with
@@ -147,7 +150,17 @@ Definition plan_ev (s : st) (x : aux) (e : list Z) : option plan :=
     | 20 => guard (ins && at_s s h SChk && Bool.eqb (pdrop s) (zb v)) (ok [SStep h] x)
     | 21 | 27 => guard (ins && at_s s h STake && Bool.eqb (negb (isnone (slot s))) (zb v)) (ok [SStep h] x)
     | 22 => guard (is_r x a && Nat.eqb (ph x) 0)
-              (if at_r s RDeadline then ok [RDl false; RStep] x else guard (at_r s RStore) (ok [RStep] x))
+              (if Nat.eqb (nb x) 2 then guard (at_r s RPop1) (skip (set_nb x 0%nat))
+               else if at_r s RDeadline then ok [RDl false; RStep] (set_nb x 0%nat) else guard (at_r s RStore) (ok [RStep] (set_nb x 0%nat)))
+    (* AtomicOption::store swaps the new blocker in and then drops the old one; when that is the last
+       reference to a stale coroutine blocker its Park::drop may spin (and yield) until the kernel half
+       has finished, so the hook's record of the store can come late: after a sender's take that already
+       saw the new blocker.  Blocker::new (44) announces the store (nb = 1); from then on a successful
+       take by a sender is tried in both orders (see `branch` below); nb = 2: the store has been
+       performed ahead of its record. *)
+    | 44 => if is_r x a && Nat.eqb (ph x) 0 && (at_r s RStore || at_r s RDeadline)
+            then (if at_r s RDeadline then ok [RDl false] (set_nb x 1%nat) else skip (set_nb x 1%nat))
+            else skip x
     | 23 => guard (is_r x a && at_r s RClear) (ok [RStep] x)
     | 24 => guard (is_r x a && at_r s RChk && Nat.eqb (ph x) 0 && Z.eqb (Z.of_nat (chans s)) v) (ok [RStep] x)
     | 25 => guard (ins && at_s s h SAdd && Z.eqb (Z.of_nat (chans s)) v) (ok [SStep h] x)
@@ -212,8 +225,31 @@ Definition accept_ev (sx : ast) (e : list Z) : option ast :=
                    | None => None end
        | None => None end
   else match e with
-       | [1; _; _; _] => Some (s, {| started := true; ract := ract x; hof := hof x; ph := ph x; opk := opk x; qt := qt x; qh := qh x |})
+       | [1; _; _; _] => Some (s, {| started := true; ract := ract x; hof := hof x; ph := ph x; opk := opk x; qt := qt x; qh := qh x; nb := nb x |})
        | _ => Some sx end.      (* the runtime starting up *)
+
+(* two candidate orders for a sender's successful take while the receiver's store is pending *)
+Definition branch (sx : ast) (e : list Z) : list ast :=
+  let (s, x) := sx in
+  match e with
+  | [code; _; _; v] =>
+      if (Z.eqb code 21 || Z.eqb code 27) && zb v && Nat.eqb (nb x) 1 && at_r s RStore
+      then match step s RStep with Some s' => [sx; (s', set_nb x 2%nat)] | None => [sx] end
+      else [sx]
+  | _ => [sx]
+  end.
+Definition accept1 (e : list Z) (sx : ast) : list ast := match accept_ev sx e with Some sx' => [sx'] | None => [] end.
+Definition accept_evm (l : list ast) (e : list Z) : option (list ast) :=
+  match firstn 8 (flat_map (accept1 e) (flat_map (fun sx => branch sx e) l)) with
+  | [] => None
+  | l' => Some l'
+  end.
+Fixpoint accept_allm (l : list ast) (tr : list (list Z)) : option (list ast) :=
+  match tr with
+  | [] => Some l
+  | e :: tr' => match accept_evm l e with Some l' => accept_allm l' tr' | None => None end
+  end.
+Definition m_initm : list ast := [a_init].
 
 Fixpoint accept_all (sx : ast) (tr : list (list Z)) : option ast :=
   match tr with
@@ -229,6 +265,8 @@ Fixpoint vals_eqb (l1 l2 : list val) : bool :=
   | _, _ => false end.
 Definition monitors_ok (sx : ast) : bool :=
   let s := fst sx in vals_eqb (sent s) (rcvd s ++ drpd s ++ q s).
+
+Definition monitors_okm (l : list ast) : bool := existsb monitors_ok l.
 
 (* ------------------------------------------------------------------------------------------ *)
 (* soundness: every state along an accepted trace is a reachable state of the model            *)
@@ -256,5 +294,43 @@ Proof.
   destruct (accept_ev sx e) as [s1|] eqn:E; [|discriminate]. eapply IH; [eapply accept_ev_ok; eauto | exact H].
 Qed.
 
-Corollary accepted_trace_reaches tr sx : accept_all m_init tr = Some sx -> Reach (fst sx).
-Proof. intro H. apply (accept_all_reach tr m_init sx); [constructor | exact H]. Qed.
+Corollary accepted_trace_reaches tr sx : accept_all a_init tr = Some sx -> Reach (fst sx).
+Proof. intro H. apply (accept_all_reach tr a_init sx); [constructor | exact H]. Qed.
+
+(* the same for the candidate lists *)
+Definition all_reach (l : list ast) : Prop := forall sx, In sx l -> Reach (fst sx).
+
+Lemma branch_ok sx e : Reach (fst sx) -> all_reach (branch sx e).
+Proof.
+  intros Hr sx' I. destruct sx as [s x]. unfold branch in I.
+  repeat match type of I with
+  | In _ (match ?t with _ => _ end) => destruct t eqn:?
+  | In _ (if ?t then _ else _) => destruct t eqn:?
+  end; cbn [In] in I; intuition (subst; cbn [fst] in *; auto).
+  eapply RS; eauto.
+Qed.
+
+Lemma in_firstn {X} n (l : list X) x : In x (firstn n l) -> In x l.
+Proof. revert l. induction n as [|n IH]; intros [|y l]; cbn; try tauto. intros [->|I]; auto. Qed.
+
+Lemma accept_evm_ok l e l' : all_reach l -> accept_evm l e = Some l' -> all_reach l'.
+Proof.
+  intros Hl H sx I. unfold accept_evm in H.
+  assert (J : In sx (firstn 8 (flat_map (accept1 e) (flat_map (fun sx0 => branch sx0 e) l)))).
+  { destruct (firstn 8 _); [discriminate | inversion H; subst; exact I]. }
+  apply in_firstn in J. apply in_flat_map in J. destruct J as [sx1 [J1 J2]].
+  apply in_flat_map in J1. destruct J1 as [sx0 [J0 J1]].
+  unfold accept1 in J2. destruct (accept_ev sx1 e) as [sx2|] eqn:E; [|destruct J2].
+  destruct J2 as [<-|[]]. eapply accept_ev_ok; [|exact E]. exact (branch_ok sx0 e (Hl _ J0) _ J1).
+Qed.
+
+Theorem accept_allm_reach tr : forall l l', all_reach l -> accept_allm l tr = Some l' -> all_reach l'.
+Proof.
+  induction tr as [|e tr IH]; cbn [accept_allm]; intros l l' Hl H; [inversion H; subst; exact Hl|].
+  destruct (accept_evm l e) as [l1|] eqn:E; [|discriminate]. eapply IH; [eapply accept_evm_ok; eauto | exact H].
+Qed.
+
+Corollary accepted_trace_reachesm tr l : accept_allm m_initm tr = Some l -> forall sx, In sx l -> Reach (fst sx).
+Proof.
+  intro H. apply (accept_allm_reach tr m_initm l); [|exact H]. intros sx [<-|[]]. constructor.
+Qed.
